@@ -14,6 +14,19 @@ CHECKS = {
             "Trusted: Lean kernel; axioms propext/Classical.choice/Quot.sound; correspondence is sampled (differential); coordinates and "
             "LAPACK are not modelled; the arithmetic-mean theorem is exact arithmetic (float recurrence compared bit-for-bit).",
             "6/C17"),
+    "C02": ("Lean 4 theorems (invariant by induction over all event lists accepted by the counting acceptor) + trace correspondence with real dfols.solve runs",
+            "Proof: for every event list accepted by CountAcc (mirror of the x0 sampling block, evaluate_objective and the nf/nx threading): "
+            "evaluations <= maxfun, nf = number of evaluations, numbers 1..nf, point numbers gap-free, same point number => identical x, "
+            "samples per point = min(requested, budget left), soln.nf/nx exact. Real traces (monkey-patched wrappers) must be accepted.",
+            "Trusted: Lean kernel; standard axioms; the acceptor is a hand-written mirror of the code tied by sampled trace inclusion; wrappers report events faithfully.",
+            "6/C02"),
+    "C20": ("Lean 4 theorems about a model of to_dict/replace_nan_with_none/json transport/from_dict/__str__ + differential correspondence on real and synthetic results",
+            "Proof: for every result record (NaN/None/inf fields, optional Jacobian/labels/diagnostic table) fromDict(dumpsLoads(toDict r)) agrees with r field by field "
+            "(NaN=NaN, table cells/columns/row order), the replaced dict has no NaN, None is mapped back to NaN (obj included), equal fields print equally; "
+            "the real to_dict/json/from_dict/str is compared with the model on results of real solves (most exit flags) and synthetic objects.",
+            "Trusted: Lean kernel; standard axioms; json.dumps/loads and pandas modelled as the identity on JSON-representable data (keys stringified); printing reduced to field equality; "
+            "known limitations listed in known_findings.json (inf not strict JSON; save_xk/save_rk arrays).",
+            "6/C20"),
 }
 
 PENDING_REASON = "check not built yet in this round (planned: see DESIGN.md section 6); not claimed until its theorem, correspondence and search exist"
